@@ -667,6 +667,21 @@ def _np_zeros(eng, a, kw, st, fr, k, node):
     return k(arr, st.assume(n >= 0))
 
 
+@lib("np.arange")
+def _np_arange(eng, a, kw, st, fr, k, node):
+    """np.arange(lo, hi) / np.arange(hi) with integer arguments and unit step: the lazy vector lo, lo+1, ..., hi-1"""
+    if len(a) == 1:
+        lo, hi = z3.IntVal(0), eng.to_int(a[0])
+    elif len(a) == 2:
+        lo, hi = eng.to_int(a[0]), eng.to_int(a[1])
+    else:
+        raise Unsupported("np.arange with a step")
+    if not (z3.is_int(lo) and z3.is_int(hi)):
+        raise Unsupported("np.arange over non-integers")
+    n = z3.If(hi > lo, hi - lo, z3.IntVal(0))
+    return k(Vec(z3.simplify(n), lambda i: lo + i), st)
+
+
 @lib("np.all")
 def _np_all(eng, a, kw, st, fr, k, node):
     v = eng.as_vec(a[0], st)
